@@ -261,19 +261,7 @@ Print Assumptions c08_stale_refuted.
 (* ===========================================================================
    Examples: the hypotheses are satisfiable by non-trivial data. *)
 
-Ltac eval_step :=
-  match goal with
-  | |- context [step ?S ?B ?o ?c ?b] =>
-      let r := fresh "r" in set (r := step S B o c b); vm_compute in r; subst r; cbv beta iota
-  end.
-Ltac wf_plain_op :=
-  cbn [wf_op];
-  first [ exact I | exact plain_enumerable | (split; [exact plain_enumerable|apply plain_enum_unique])
-        | reflexivity | (cbn; unfold f32_words; repeat constructor) ].
-Ltac wf_plain_run :=
-  repeat (cbn [wf_run]; first [exact I | split; [wf_plain_op | eval_step]]).
-Ltac wf_plain_txs :=
-  repeat (cbn [wf_txs]; first [exact I | split; [split; [cbn [t_ops t_drop]; wf_plain_run|cbn; first [discriminate|reflexivity|(intros _; reflexivity)]] | eval_run_txn]]).
+Ltac plain_ok := repeat constructor; try (intros; first [discriminate|reflexivity]).
 
 Notation OPut' := (@OPut plain_inst).
 Notation OGet' := (@OGet plain_inst).
@@ -302,7 +290,7 @@ Example ex_refines_hyps :
     [ ObsUnit'; ObsGet' (Some vecA); ObsUnit'; ObsEach' true [(id1, vecA); (id2, vecB)]; ObsCount' 2; ObsUnit';
       ObsUnit'; ObsGet' None; ObsMany' [vecB]; ObsCount' 1; ObsUnit'; ObsEach' true [(id2, vecB)] ].
 Proof.
-  split; [apply inv_empty|]. split; [unfold ex_ops; wf_plain_run|vm_compute; reflexivity].
+  split; [apply inv_empty|]. split; [apply plain_wf_run; plain_ok|vm_compute; reflexivity].
 Qed.
 
 (* the same history with a warm cache, and with a fresh cache for every transaction *)
@@ -325,9 +313,9 @@ Example ex_warm_cold_hyps :
   snd (run_txs plain_inst AL2 (ex_history false) c_empty []) = snd (run_txs plain_inst AL (ex_history false) c_empty []).
 Proof.
   split; [repeat constructor|].
-  split; [unfold ex_history; wf_plain_txs|].
-  split; [unfold ex_history; wf_plain_txs|].
-  split; [unfold ex_history; wf_plain_txs|].
+  split; [apply plain_wf_txs; plain_ok|].
+  split; [apply plain_wf_txs; plain_ok|].
+  split; [apply plain_wf_txs; plain_ok|].
   split; [vm_compute; reflexivity|]. split; vm_compute; reflexivity.
 Qed.
 
@@ -338,12 +326,15 @@ Example ex_flush_hyps :
   inv plain_inst plain_spec c (bk_get AL b) /\ c_items c <> [] /\ b <> [] /\
   ~ settled plain_inst plain_spec c (bk_get AL b).
 Proof.
-  pose proof (cache_refines_map plain_inst plain_spec plain_laws AL AL_laws
-                [OPut' id1 vecA; OPut' id2 vecA; OFlush'; OPut' id1 vecB; ODelete' id2] c_empty []) as H.
-  destruct (run plain_inst AL _ c_empty []) as [[c b] xs] eqn:R.
-  destruct (H c b xs (inv_empty _ _ _)) as (I1 & _ & _); [wf_plain_run|reflexivity|].
-  split; [exact I1|]. vm_compute in R. injection R as <- <- _.
-  split; [discriminate|]. split; [discriminate|].
+  match goal with
+  | |- context [run ?S ?B ?ops ?c ?b] =>
+      let v := eval vm_compute in (run S B ops c b) in
+      assert (R : run S B ops c b = v) by (vm_compute; reflexivity); rewrite R
+  end.
+  cbv beta iota.
+  destruct (cache_refines_map plain_inst plain_spec plain_laws AL AL_laws _ _ _ _ _ _ (inv_empty _ _ _)
+              ltac:(apply plain_wf_run; plain_ok) R) as (I1 & _ & _).
+  split; [exact I1|]. split; [discriminate|]. split; [discriminate|].
   intros Hs. destruct (Hs id1 vecB true false eq_refl) as [Hd _]. discriminate.
 Qed.
 
